@@ -184,6 +184,36 @@ def short(x, n=300):
     return t if len(t) <= n else t[:n] + '...'
 
 
+def language_parameter(R):
+    """the public `language=` argument of the parsers: <L>.Parser(language=M) builds the objects of module M (for M in which the
+    accepted formula is a formula: the parser's own logic and the logics above it), a parser built WITHOUT it builds objects of its
+    own logic - whichever parsers were constructed before in the same process (a construction cache may not ignore the argument)"""
+    ABOVE = {'PL': ['PL', 'CTL', 'LTL', 'CTLS'], 'CTL': ['CTL', 'CTLS'], 'LTL': ['LTL', 'CTLS'], 'CTLS': ['CTLS']}
+    TEXTS = {'PL': ['not p or true', 'p', '(p and q) --> false'],
+             'CTL': ['not p or true', 'A G (p --> E F q)', 'p', 'E (p U A X q)'],
+             'LTL': ['not p or true', 'A G (p --> F q)', 'p', 'A ((X p) R q)'],
+             'CTLS': ['not p or true', 'A G F p', 'p', 'E (F G q and X p)']}
+    nb = 0
+    for rnd in range(2):                                    # twice: the second round meets whatever the first one left behind
+        for Ln in (LANGS if rnd == 0 else list(reversed(LANGS))):
+            P = lang_module(Ln).Parser
+            for Mn in (ABOVE[Ln] if rnd == 0 else list(reversed(ABOVE[Ln]))) + [None]:
+                for text in TEXTS[Ln]:
+                    R.evaluations += 1
+                    want = Mn or Ln
+                    r = call(lambda: (lambda o: (sorted(langs_in(o)), tree_of(o)))(P(language=lang_module(Mn))(text) if Mn else P()(text)))
+                    base = call(lambda: tree_of(PG.parsers()[Ln](text)))
+                    if r[0] != 'ok' or r[1][0] != [want] or base[0] != 'ok' or r[1][1] != base[1]:
+                        nb += 1
+                        if nb <= 6:
+                            R.violation('%s.Parser(%s)(%r): the result is not the formula of module %s' % (Ln, 'language=%s' % Mn if Mn else '', text, want),
+                                        {'stream': 'language parameter', 'lang': Ln, 'language_argument': Mn, 'string': text, 'round': rnd,
+                                         'impl': [r[0], r[1] if r[0] != 'ok' else {'modules': r[1][0], 'tree': r[1][1]}], 'expected_module': want})
+                    else:
+                        R.nontriv(('language', Ln, Mn, text))
+    R.cov['language_parameter'] = {'differences': nb}
+
+
 def run(R):
     R.rule = ('strings, each given to PL/CTLS/CTL/LTL.Parser(): all word sequences of length <= 3 over {true,false,not,or,and,-->,A,E,X,F,G,U,R,(,),p,q} '
               '(length 4: 9000 sampled in quick, all 83521 in thorough; sampled length 5-7), the same with ~ | & "s t" orb Until Ab true_, glued forms '
@@ -199,6 +229,7 @@ def run(R):
               'outcome class and exception contract on the implementation, accepted tree in the documented grammar and in the parser\'s own module, '
               'accept/reject and tree vs the model; Earley upper bound on accepted strings. evaluations = (string, parser) pairs. non-trivial = a string '
               'some parser accepts and another rejects, or a (string, parser) rejected at one token edit from a string that parser accepts (or vice versa)')
+    language_parameter(R)
     sym = PG.symbol_table_diffs()
     if sym:
         R.violation('operator spellings of the live modules differ from the ones the parser model was proved for',
@@ -363,6 +394,11 @@ def run(R):
 
 def replay(R, data):
     d = data['data']
+    if d.get('stream') == 'language parameter':
+        n0 = len(R.violations)
+        language_parameter(R)
+        print('language parameter stream re-run: %d violation(s)' % (len(R.violations) - n0))
+        return
     if 'string' not in d:
         print('no input string in this replay (proof gate / symbol tables):', json.dumps(d, default=str)[:2000])
         if PG.symbol_table_diffs():
